@@ -214,14 +214,21 @@ def leg_a(ctx):
             if FORBIDDEN.search(line):
                 ctx.proof["broken"].append((f"{fp.name}:{i+1}", f"forbidden construct: {line.strip()[:80]}"))
     # axioms audit
-    audit = core.BUILD / f"Audit_{pid}.lean"
-    audit.write_text("".join(f"import {m}\n" for m in proof_modules(pid)) + "".join(f"#print axioms {n}\n" for n in names))
-    r = core.run_cmd(["lake", "env", "lean", str(audit)], cwd=core.LEAN_DIR)
-    out = r.stdout.decode(errors="replace")
+    # one audit per module (the property file and its extension need not be importable together: lemma files reuse short names)
     seen = {}
-    for m in re.finditer(r"'([^']+)' (does not depend on any axioms|depends on axioms: \[([^\]]*)\])", out, re.S):
-        axs = set(a.strip() for a in (m.group(3) or "").replace("\n", " ").split(",") if a.strip())
-        seen[m.group(1)] = sorted(axs)
+    out = ""
+    for k, mod in enumerate(proof_modules(pid)):
+        mnames = theorem_names_of(core.LEAN_DIR / (mod.replace(".", "/") + ".lean"))
+        if not mnames:
+            continue
+        audit = core.BUILD / (f"Audit_{pid}.lean" if k == 0 else f"Audit_{pid}_{k}.lean")
+        audit.write_text(f"import {mod}\n" + "".join(f"#print axioms {n}\n" for n in mnames))
+        r = core.run_cmd(["lake", "env", "lean", str(audit)], cwd=core.LEAN_DIR)
+        out_m = r.stdout.decode(errors="replace")
+        out += out_m
+        for m in re.finditer(r"'([^']+)' (does not depend on any axioms|depends on axioms: \[([^\]]*)\])", out_m, re.S):
+            axs = set(a.strip() for a in (m.group(3) or "").replace("\n", " ").split(",") if a.strip())
+            seen[m.group(1)] = sorted(axs)
     for n in names:
         if n not in seen:
             ctx.proof["broken"].append((n, "not reported by #print axioms: " + out[-400:]))
